@@ -68,24 +68,32 @@ Proof. exact (table_thm dialects C18_tables_wf). Qed.
 Print Assumptions C18_table.
 
 (* an offline script does not depend on whether the connection handed to context.configure() is in a transaction *)
-Theorem C18_ignores_connection_state : forall d tddl pm b r,
-  offline_chunks d (mkOcfg tddl pm b) r = offline_chunks d (mkOcfg tddl pm false) r.
+Theorem C18_ignores_connection_state : forall d tddl pm b e r,
+  offline_chunks d (mkOcfg tddl pm b e) r = offline_chunks d (mkOcfg tddl pm false e) r.
 Proof. exact conn_state_thm. Qed.
 Print Assumptions C18_ignores_connection_state.
+
+(* the transactional_ddl override has the same effect through context.configure(transactional_ddl=x) and through
+   EnvironmentContext(..., transactional_ddl=x); the argument of configure() wins over the keyword *)
+Theorem C18_override_routes : forall d pm b x r,
+  offline_chunks d (mkOcfg (Some x) pm b None) r = offline_chunks d (mkOcfg None pm b (Some x)) r /\
+  (forall y, offline_chunks d (mkOcfg (Some x) pm b (Some y)) r = offline_chunks d (mkOcfg (Some x) pm b None) r).
+Proof. exact override_routes_thm. Qed.
+Print Assumptions C18_override_routes.
 
 (* ---- non-vacuity: a transactional dialect of the table, two steps, the first with an autocommit section ---- *)
 Definition ex_run : run := mkRun true [mkOstep [IStmt 0%N; IAuto [1%N]; IStmt 2%N] 1 false; mkOstep [IStmt 0%N] 1 false].
 Example C18_grammar_nonvacuous :
-  In (Some (dget 5)) dialects /\ table_wf (dget 5) = true /\ effective_tddl (dget 5) (mkOcfg None true true) = true /\
-  count_begin (offline_events (dget 5) (mkOcfg None true true) ex_run) = 3%nat /\
+  In (Some (dget 5)) dialects /\ table_wf (dget 5) = true /\ effective_tddl (dget 5) (mkOcfg None true true None) = true /\
+  count_begin (offline_events (dget 5) (mkOcfg None true true None) ex_run) = 3%nat /\
   nth_error (r_steps ex_run) 1 = Some (mkOstep [IStmt 0%N] 1 false) /\ no_auto (mkOstep [IStmt 0%N] 1 false) = true.
 Proof. vm_compute. repeat split; auto 10. Qed.
 Example C18_single_block_nonvacuous :
-  table_wf (dget 1) = true /\ effective_tddl (dget 1) (mkOcfg None false true) = true /\
+  table_wf (dget 1) = true /\ effective_tddl (dget 1) (mkOcfg None false true None) = true /\
   forallb no_auto (r_steps (mkRun true [mkOstep [IStmt 0%N] 1 false; mkOstep [IStmt 0%N] 2 true])) = true /\
-  count_begin (offline_events (dget 1) (mkOcfg None false true) (mkRun true [mkOstep [IStmt 0%N] 1 false; mkOstep [IStmt 0%N] 2 true])) = 1%nat.
+  count_begin (offline_events (dget 1) (mkOcfg None false true None) (mkRun true [mkOstep [IStmt 0%N] 1 false; mkOstep [IStmt 0%N] 2 true])) = 1%nat.
 Proof. vm_compute. repeat split; auto. Qed.
 Example C18_no_markers_nonvacuous :
-  table_wf (dget 4) = true /\ effective_tddl (dget 4) (mkOcfg None true true) = false /\
-  length (offline_events (dget 4) (mkOcfg None true true) ex_run) = 16%nat.
+  table_wf (dget 4) = true /\ effective_tddl (dget 4) (mkOcfg None true true None) = false /\
+  length (offline_events (dget 4) (mkOcfg None true true None) ex_run) = 16%nat.
 Proof. vm_compute. repeat split; auto. Qed.
